@@ -111,9 +111,14 @@ def run_history(ctx, case, zy) -> list[dict]:
             rep = inproc(s, {})
         else:
             r = zy.run(s)
-            if r["hang"] or r["report"] is None:
-                raise core.Infra(f"C13: submission did not finish: {case} {r}")
-            rep = r["report"]
+            if r["hang"]:
+                # the submission did not return within the watchdog: the failure was not reported (a violation of the
+                # property, not an infrastructure problem — the same task returns within a second when it works)
+                rep = {"outcome": "hang", "outputs": None, "cwd": "orig", "msg": f"no return within {jp.WATCHDOG:.0f} s"}
+            elif r["report"] is None:
+                raise core.Infra(f"C13: submission ended without a report: {case} {r}")
+            else:
+                rep = r["report"]
         o = jp.observe(spec["cache"], chk, spec["ctl"])
         msg = (rep.get("msg") or "") + " ".join(rep.get("notes") or [])
         out.append(
@@ -180,6 +185,8 @@ def history_ok(case, hs) -> tuple[bool, str]:
     prev_execs, prev_result = 0, "absent"
     for st, o in zip(case["steps"], hs):
         executes = st["rerun"] or prev_result != "ok"
+        if o["outcome"] == "hang":
+            return False, "the submission did not return (watchdog)"
         if executes and o["execs"] != prev_execs + 1:
             return False, f"expected the body to run (result was {prev_result}): executions {prev_execs} -> {o['execs']}"
         if not executes and o["execs"] != prev_execs:
